@@ -24,6 +24,11 @@ sub('operator.go', [(r'(?<![.\w])params\b','ps')])
 ren('compiler.go','copyConfig','dst','to'); ren('compiler.go','copyConfig','src','from')
 ren('compiler.go','calculateNodeCosts','root','nd'); ren('compiler.go','optimizeReordering','root','nd')
 ren('compiler.go','calAndSetStackSize','maxStackSize','high'); ren('compiler.go','optimizeFastEvaluation','root','nd')
+# session 3: locals of the passes and helpers put under contract
+ren('compiler.go','calAndSetShortCircuit','f','jump'); ren('compiler.go','calAndSetShortCircuit','pIdx','parIdx'); ren('compiler.go','calAndSetShortCircuit','flag','bits')
+ren('compiler.go','optimizeReduceNesting','children','flat'); ren('compiler.go','calAndSetParentIndex','queue','todo'); ren('compiler.go','calAndSetParentIndex','f','table')
+ren('compiler.go','calAndSetStackSize','prev','before')
+ren('util.go','Dump','rootIdx','top'); ren('util.go','Dump','childIdxes','kids'); ren('util.go','splitLinesOutsideStrings','start','from0')
 # parser.go: error message texts, a local of the list parser
 sub('parser.go', [(r'invalid compile format', 'malformed compile directive'), (r'(?<![.\w])strs\b','texts')])
 # variable.go / util.go
